@@ -124,6 +124,25 @@ Definition slice_list {A} (a b : option Z) (l : list A) : list A :=
   let e := match b with Some x => slice_bound n x | None => n end in
   firstn (Z.to_nat (e - s)) (skipn (Z.to_nat s) l).
 
+(* list(range(a, b, s)), s <> 0 *)
+Fixpoint range_up (fuel : nat) (a b s : Z) : list Z :=
+  match fuel with O => [] | S f => if (a <? b)%Z then a :: range_up f (a + s)%Z b s else [] end.
+Fixpoint range_down (fuel : nat) (a b s : Z) : list Z :=
+  match fuel with O => [] | S f => if (b <? a)%Z then a :: range_down f (a + s)%Z b s else [] end.
+Definition py_range (a b s : Z) : list Z :=
+  if (0 <? s)%Z then range_up (Z.to_nat (b - a)) a b s
+  else if (s <? 0)%Z then range_down (Z.to_nat (a - b)) a b s else [].
+(* l[a:b:s]: slice.indices(len(l)) then the cells at those positions *)
+Definition slice_bound_neg (n : Z) (x : Z) : Z := if (x <? 0)%Z then Z.max (x + n) (-1) else Z.min x (n - 1).
+Definition slice_idx (a b : option Z) (s : Z) (n : Z) : list Z :=
+  if (0 <? s)%Z then py_range (match a with Some x => slice_bound n x | None => 0%Z end) (match b with Some x => slice_bound n x | None => n end) s
+  else py_range (match a with Some x => slice_bound_neg n x | None => (n - 1)%Z end) (match b with Some x => slice_bound_neg n x | None => (-1)%Z end) s.
+Definition in_range (n : nat) (i : Z) : bool := ((0 <=? i)%Z && (i <? Z.of_nat n)%Z)%bool.
+Definition sel_idx {A} (d : A) (idx : list Z) (l : list A) : list A :=
+  map (fun i => nth (Z.to_nat i) l d) (filter (in_range (List.length l)) idx).
+Definition slice_step {A} (d : A) (a b : option Z) (s : Z) (l : list A) : list A :=
+  sel_idx d (slice_idx a b s (Z.of_nat (List.length l))) l.
+
 (* ------------------------------------------------------------------ values, named functions *)
 Inductive cval := VS (c : cell) | VL (l : list cell).
 (* _value: None -> [None], scalar -> [x], list -> the list *)
@@ -213,7 +232,13 @@ Definition c_getcol (c : ctable) (key : colname) : res (list cell) :=
 Definition c_tuple (c : ctable) (names : list colname) : res (list (list cell)) :=
   mapM (c_getcol c) names >>= fun cs => Ok (zip_star cs).
 Definition c_apply (c : ctable) (f : rowfn) : res (list cell) := mapM (eval_rowfn f) (c_iter c).
-Definition c_slice (c : ctable) (a b : option Z) : res ctable := finish (mapv (slice_list a b) c).
+(* {key: value[a:b:step]}: step None = the plain slice; step 0 raises on the first column (no column: no error) *)
+Definition c_slice (c : ctable) (a b st : option Z) : res ctable :=
+  match st with
+  | None => finish (mapv (slice_list a b) c)
+  | Some s => if Z.eqb s 0 then match c with [] => Ok [] | _ => Err EValue end
+              else finish (mapv (slice_step CNone a b s) c)
+  end.
 Definition kept {A} (ps : list (A * bool)) : list A := map fst (filter snd ps).
 Definition c_mask (c : ctable) (m : list bool) : res ctable :=
   match m with
@@ -301,7 +326,12 @@ Definition r_tuple (r : rtable) (names : list colname) : res (list (list cell)) 
   mapM (fun k => if mem k (cols r) then Ok k else Err EKey) names >>= fun ks =>
   match ks with [] => Ok [] | _ => Ok (map (fun rc => map (fun k => get_or_none k rc) ks) (recs r)) end.
 Definition r_apply (r : rtable) (f : rowfn) : res (list cell) := mapM (eval_rowfn f) (recs r).
-Definition r_slice (r : rtable) (a b : option Z) : res rtable := Ok (mkR (cols r) (slice_list a b (recs r))).
+Definition r_slice (r : rtable) (a b st : option Z) : res rtable :=
+  match st with
+  | None => Ok (mkR (cols r) (slice_list a b (recs r)))
+  | Some s => if Z.eqb s 0 then match cols r with [] => Ok r_empty | _ => Err EValue end
+              else Ok (mkR (cols r) (slice_step [] a b s (recs r)))
+  end.
 Definition r_mask (r : rtable) (m : list bool) : res rtable :=
   match m with
   | [] => Ok (mkR (cols r) [])
@@ -355,7 +385,7 @@ Inductive op :=
 | OTuple (r : nat) (names : list colname)
 | OApply (r : nat) (f : rowfn)
 | OIter (r : nat)
-| OSlice (dst r : nat) (a b : option Z)
+| OSlice (dst r : nat) (a b st : option Z)                (* d[a:b:st] *)
 | OMask (dst r : nat) (m : list bool)
 | OInts (dst r : nat) (idx : list Z)
 | OProj (dst r : nat) (names : list colname)
@@ -364,7 +394,8 @@ Inductive op :=
 | ODo (dst r : nat) (f : colfn) (ks : option (list colname))
 | OConcat (dst : nat) (srcs : list nat)                  (* one source: returns the operand itself *)
 | OAdd (dst r : nat) (a : addarg)                        (* d + None, d + 0: return d itself *)
-| OCopy (dst r : nat).
+| OCopy (dst r : nat)
+| ORange (dst r : nat) (a b s : Z).                       (* d[range(a, b, s)] = d[list(range(a, b, s))] *)
 
 Inductive out :=
 | OutOk | OutErr (e : err) | OutRec (r : record) | OutCells (l : list cell)
@@ -383,7 +414,7 @@ Record TOps (T : Type) := mkOps {
   t_tuple : T -> list colname -> res (list (list cell));
   t_apply : T -> rowfn -> res (list cell);
   t_iter : T -> list record;
-  t_slice : T -> option Z -> option Z -> res T;
+  t_slice : T -> option Z -> option Z -> option Z -> res T;
   t_mask : T -> list bool -> res T;
   t_ints : T -> list Z -> res T;
   t_proj : T -> list colname -> res T;
@@ -446,7 +477,7 @@ Definition step (s : gstate T) (o : op) : gstate T * out :=
   | OTuple r names => query s OutTuples (t_tuple O (rd s r) names)
   | OApply r f => query s OutCells (t_apply O (rd s r) f)
   | OIter r => (s, OutRecs (t_iter O (rd s r)))
-  | OSlice dst r a b => fresh s dst (t_slice O (rd s r) a b)
+  | OSlice dst r a b st => fresh s dst (t_slice O (rd s r) a b st)
   | OMask dst r m => fresh s dst (t_mask O (rd s r) m)
   | OInts dst r idx => fresh s dst (t_ints O (rd s r) idx)
   | OProj dst r names => fresh s dst (t_proj O (rd s r) names)
@@ -465,6 +496,8 @@ Definition step (s : gstate T) (o : op) : gstate T * out :=
       | AddRec rc => fresh s dst (t_of_record O (dict_of rc) >>= fun t2 => t_concat O [rd s r; t2])
       end
   | OCopy dst r => fresh s dst (Ok (rd s r))
+  | ORange dst r a b st =>          (* range(a, b, 0) raises ValueError before the table is touched *)
+      fresh s dst (if Z.eqb st 0 then Err EValue else t_ints O (rd s r) (py_range a b st))
   end.
 (* a history: the final state and every output, oldest first *)
 Definition run (s : gstate T) (ops : list op) : gstate T * list out :=
